@@ -44,7 +44,8 @@ impl PropCase for Chain {
             let cont: &[u8] = if k < nseg { &self.segs[k].0 } else { &self.tail };
             let mut la = Log::new();
             let mut lb = Log::new();
-            let mut b = new_decoder(self.buf);
+            // the "newly constructed" decoder: alternately Decoder::new() and Decoder::from_buf(stale buffer)
+            let mut b = if k % 2 == 0 { new_decoder(self.buf) } else { new_decoder_from_buf(self.buf) };
             // long-lived decoder, remembering its state just before the last byte (for evidence)
             let mut before_last = a.state();
             for (i, byte) in cont.iter().enumerate() {
@@ -200,7 +201,20 @@ fn seg_ending_at_boundary(ctx: &mut Ctx, buf: BufKind) -> Option<Vec<u8>> {
             // out of memory (fixed buffers only)
             match cap {
                 Some(n) => {
-                    let q: Vec<u8> = (0..n + 1 + rng.below(6)).map(|i| if i % 5 == 4 { 0 } else { 0x41 + (i % 50) as u8 }).collect();
+                    // overflow at a random place of a structured payload: plain bytes, zero runs, 0x1b runs and
+                    // literal escapes all occur at the overflow point
+                    let mut q: Vec<u8> = Vec::new();
+                    while q.len() <= n {
+                        match rng.below(5) {
+                            0 => q.extend_from_slice(&[0x1b; 4]),
+                            1 => q.extend(std::iter::repeat(0u8).take(rng.range(1, 5))),
+                            2 => q.extend(std::iter::repeat(0x1bu8).take(rng.range(1, 9))),
+                            _ => q.extend((0..rng.range(1, 4)).map(|i| 0x41 + i as u8)),
+                        }
+                    }
+                    if rng.chance(1, 2) {
+                        q.truncate(n + 1);
+                    }
                     ref_encode(&q)
                 }
                 None => ref_encode(&payload::any_payload(rng)),
